@@ -571,3 +571,138 @@ int token_case_replay(uint64_t code, int len, int limit)
     size_t n = token_text(code, len, text);
     return token_case(text, n, limit, &cls, &bad, &parses);
 }
+
+/* ------------------------------------------------------------------ */
+/* C11 helpers: deep single-child chains and cycles are handled iteratively (no recursion in the harness) */
+cJSON *shim_make_chain(int containers, int pattern, int with_leaf)
+{
+    /* `containers` nested single-child containers (pattern bit i%3 selects array/object), innermost holds a leaf or is empty */
+    cJSON *root = NULL;
+    cJSON *cur = NULL;
+    int i;
+    for (i = 0; i < containers; i++)
+    {
+        int is_obj = (pattern >> (i % 3)) & 1;
+        cJSON *n = is_obj ? cJSON_CreateObject() : cJSON_CreateArray();
+        if (n == NULL)
+        {
+            cJSON_Delete(root);
+            return NULL;
+        }
+        if (cur == NULL)
+        {
+            root = n;
+        }
+        else if (cur->type == cJSON_Object)
+        {
+            cJSON_AddItemToObject(cur, "k", n);
+        }
+        else
+        {
+            cJSON_AddItemToArray(cur, n);
+        }
+        cur = n;
+    }
+    if (with_leaf)
+    {
+        cJSON *leaf = cJSON_CreateNumber(1.5);
+        if (cur == NULL)
+        {
+            return leaf;
+        }
+        if (cur->type == cJSON_Object)
+        {
+            cJSON_AddItemToObject(cur, "k", leaf);
+        }
+        else
+        {
+            cJSON_AddItemToArray(cur, leaf);
+        }
+    }
+    return root;
+}
+
+/* number of nodes along the first-child chain, bounded */
+long shim_chain_length(const cJSON *n, long bound)
+{
+    long k = 0;
+    while (n != NULL && k < bound)
+    {
+        k++;
+        n = n->child;
+    }
+    return k;
+}
+
+/* hash of the node structs (and key/string bytes) along the first-child chain, bounded by `bound` nodes */
+uint64_t shim_chain_hash(const cJSON *n, long bound)
+{
+    uint64_t h = 1469598103934665603ULL;
+    long k = 0;
+    while (n != NULL && k < bound)
+    {
+        const unsigned char *p = (const unsigned char *)n;
+        size_t i;
+        for (i = 0; i < sizeof(cJSON); i++)
+        {
+            h ^= p[i];
+            h *= 1099511628211ULL;
+        }
+        if (n->string != NULL)
+        {
+            const char *s;
+            for (s = n->string; *s; s++)
+            {
+                h ^= (unsigned char)*s;
+                h *= 1099511628211ULL;
+            }
+        }
+        k++;
+        n = n->child;
+    }
+    return h;
+}
+
+/* structural comparison of two single-child chains without recursion; 1 if equal in types, keys and leaf value, all links healthy */
+int shim_chain_equal(const cJSON *a, const cJSON *b, long bound)
+{
+    long k = 0;
+    while (a != NULL && b != NULL && k < bound)
+    {
+        if ((a->type & 0xFF) != (b->type & 0xFF) || (b->type & cJSON_IsReference))
+        {
+            return 0;
+        }
+        if ((a->string == NULL) != (b->string == NULL) || (a->string && strcmp(a->string, b->string) != 0))
+        {
+            return 0;
+        }
+        if (a == b || (a->string != NULL && a->string == b->string && !(a->type & cJSON_StringIsConst)))
+        {
+            return 0; /* shared memory */
+        }
+        if ((a->type & 0xFF) == cJSON_Number && a->valuedouble != b->valuedouble)
+        {
+            return 0;
+        }
+        if (b->next != NULL || (k > 0 && b->prev != b) || (k == 0 && b->prev != NULL))
+        {
+            return 0; /* single child: prev designates itself; root: no links */
+        }
+        a = a->child;
+        b = b->child;
+        k++;
+    }
+    return a == NULL && b == NULL;
+}
+
+/* n-th node along the first-child chain */
+cJSON *shim_chain_node(cJSON *n, long index)
+{
+    while (n != NULL && index > 0)
+    {
+        n = n->child;
+        index--;
+    }
+    return n;
+}
